@@ -2,9 +2,10 @@ SPECIFICATION Spec
 CONSTANTS
   Behaviors = {"A", "B"}
   MaxOps = 2
+  MaxRestarts = 1
   Defects = {}
   MaxDepth = 4
 CONSTRAINT Bound
 VIEW View
 INVARIANTS Refines WellFormed TypeOK
-PROPERTIES HandlerIsIdealTop FinishesUnderStarter
+PROPERTIES HandlerIsIdealTop FinishesUnderStarter RestartRestoresDefault
